@@ -337,6 +337,7 @@ def build_trees(
         trees = AngularTree(coords, weights, leafsize=leafsize)
 
     else:
+        has_weights = DataChunk.hasattr(chunk, "weights")
         redshifts = DataChunk.getattr(chunk, "redshifts", None)
         bin_idx = np.digitize(
             redshifts, binning.edges, right=(binning.closed == Closed.right)
@@ -350,7 +351,7 @@ def build_trees(
                 trees[i] = AngularTree(coords, weights=weights, leafsize=leafsize)
 
         # fill in dummy trees for bins that contain no data
-        empty_tree = AngularTree.empty(has_weights=weights is not None)
+        empty_tree = AngularTree.empty(has_weights=has_weights)
         trees = tuple(trees.get(i + 1, empty_tree) for i in range(len(binning)))
 
     return trees
